@@ -475,6 +475,11 @@ def parseMmlTrackF : Nat → P Unit
       conditionalBlockBegin
       parseMmlTrackF fuel
     else if c == 37 then do
+      -- `unget(c); set_reference(get_reference()); get();` before the event (fix 1763cac)
+      ungetC c
+      let s ← getS
+      trackOp (.setReference (some s.inp.getReference))
+      let _ ← getC
       trackOp (.addEvent ev_PLATFORM (← expectParameter) 0 0)
       parseMmlTrackF fuel
     else if c == 0 then pure ()
